@@ -208,8 +208,9 @@ fn deserialize<'a>(ty: &OwnedDataModelType, data: &'a [u8]) -> Result<(Value, &'
         } => {
             match &tys[..] {
                 [] => {
-                    // TODO: Not sure this is right...
-                    Ok((Value::Null, data))
+                    // serde_json renders a zero-field tuple (struct) as an empty array,
+                    // which is also what the encoder expects for it
+                    Ok((Value::Array(vec![]), data))
                 }
                 [ty] => {
                     // Single item, NOT an array
